@@ -218,7 +218,46 @@ func (ex *Exec) fileWrite(h *fsHandle, p []Value, at int, op string) (int, iface
 	return len(p), iface{}
 }
 
+// sparseGap: a write or an extension this far past the materialised bytes is kept
+// as a patch / a logical size instead of filling the gap with zero bytes.
+const sparseGap = 1 << 20
+
 func (ex *Exec) putBytes(n *fsNode, p []Value, at int) {
+	if at > len(n.data)+sparseGap {
+		if len(p) == 0 {
+			if at > n.vsize {
+				n.vsize = at
+			}
+			return
+		}
+		if n.patches == nil {
+			n.patches = map[int][]Value{}
+		}
+		// a write that starts inside an earlier patch is merged into it; anything
+		// else becomes a patch of its own (reads lay patches over the zero hole)
+		for start, b := range n.patches {
+			if at >= start && at <= start+len(b) {
+				nb := append([]Value{}, b...)
+				for i, v := range p {
+					if k := at - start + i; k < len(nb) {
+						nb[k] = v
+					} else {
+						nb = append(nb, v)
+					}
+				}
+				n.patches[start] = nb
+				if start+len(nb) > n.vsize {
+					n.vsize = start + len(nb)
+				}
+				return
+			}
+		}
+		n.patches[at] = append([]Value{}, p...)
+		if at+len(p) > n.vsize {
+			n.vsize = at + len(p)
+		}
+		return
+	}
 	for len(n.data) < at {
 		n.data = append(n.data, K(8, 0))
 	}
@@ -483,6 +522,17 @@ func registerFS(e *Engine) {
 			h.node.data = h.node.data[:size]
 		} else {
 			ex.putBytes(h.node, nil, size)
+		}
+		// a sparse file is cut at its logical size; patches past the cut are gone
+		if h.node.vsize > size {
+			h.node.vsize = size
+		}
+		for at, b := range h.node.patches {
+			if at >= size {
+				delete(h.node.patches, at)
+			} else if at+len(b) > size {
+				h.node.patches[at] = b[:size-at]
+			}
 		}
 		h.node.dirty = true
 		return iface{}
